@@ -75,9 +75,16 @@ def div(d, with_t):
     return EqObligation(f"C01/_div_rev/ensures[d={d},t={int(with_t)}]", build, ["jinns.loss._operators:_div_rev"])
 
 
-def veclap(d, with_t, m, explicit, modular):
+def veclap(d, with_t, m, explicit, modular, ssl=None):
+    """ssl: the network carries a non-default `slice_solution` (s_[a:b] of mo raw outputs).  The wrapper's call returns
+    all raw outputs (slice_solution is applied by the loss terms, not by the wrapper), so component j of the field the
+    operator sees is raw output j, whatever the slice."""
+    off = 0
     def build():
-        net = _net("vl", d, with_t, m)
+        if ssl is None:
+            net = _net("vl", d, with_t, m)
+        else:
+            net = Net("Nvls", "nonstatio_PDE" if with_t else "statio_PDE", d + (1 if with_t else 0), ssl[2], slice_solution=jnp.s_[ssl[0]:ssl[1]])
         kw = dict(u_vec_ndim=m) if explicit else {}
         f = ops._vectorial_laplacian
         if modular:
@@ -96,14 +103,16 @@ def veclap(d, with_t, m, explicit, modular):
         def spec(*a):
             pt, th, o = _unpack(a, with_t)
             n = net.jet(th)
-            return arr(lambda j: sum((n(j[0], pt, (o + i, o + i)) for i in range(d)), P.ZERO), (m,))
+            return arr(lambda j: sum((n(off + j[0], pt, (o + i, o + i)) for i in range(d)), P.ZERO), (m,))
         def canary(*a):
             pt, th, o = _unpack(a, with_t)
             n = net.jet(th)
-            return arr(lambda j: sum((n(0, pt, (o + i, o + i)) for i in range(d)), P.ZERO), (m,)) if m > 1 else \
+            return arr(lambda j: sum((n(off, pt, (o + i, o + i)) for i in range(d)), P.ZERO), (m,)) if m > 1 else \
                 arr(lambda j: n(0, pt, (o,)), (m,))
         return dict(fn=_call(f, net, with_t, **kw), inputs=_inputs(d, with_t), spec=spec, canary=canary)
     tag = "modular" if modular else "closure"
+    if ssl is not None:
+        tag += f".slice_solution_{ssl[0]}:{ssl[1]}_of_{ssl[2]}"
     return EqObligation(f"C01/_vectorial_laplacian/ensures.{tag}[d={d},t={int(with_t)},m={m},explicit={int(explicit)}]",
                         build, ["jinns.loss._operators:_vectorial_laplacian", "jinns.loss._operators:_laplacian_rev"])
 
@@ -195,6 +204,9 @@ def obligations(tier):
             elif d == 2:
                 obs.append(veclap(d, with_t, 3, True, False))
         obs.append(adv(with_t))
+        obs.append(veclap(2, with_t, 2, True, False, ssl=(1, 3, 3)))      # a field that is outputs 1..2 of a 3-output network
+        obs.append(div(5, with_t))                                        # beyond the dimensions of the library's own equations
+        obs.append(lap(5, with_t))
         for d in (1, 3):
             obs.append(adv_raises(d, with_t))
     obs.append(FnObligation("C01/jinns.loss/reexports", reexports, ["jinns.loss.__init__"]))
